@@ -432,7 +432,7 @@ structure EntryGood (keys : List Str) (e : Entry) : Prop where
 
 theorem entryGood_of_ok {keys : List Str} {e : Entry} (h : entryOkW keys e = true) : EntryGood keys e := by
   simp only [entryOkW, Bool.and_eq_true, Bool.not_eq_true', beq_iff_eq] at h
-  obtain ⟨⟨⟨⟨⟨⟨h1, h2⟩, h3⟩, h4⟩, h5⟩, h6⟩, h7⟩ := h
+  obtain ⟨⟨⟨⟨⟨⟨⟨h1, h2⟩, h3⟩, h4⟩, _⟩, h5⟩, h6⟩, h7⟩ := h
   obtain ⟨r1, r2⟩ := rolesOkW_unpack _ _ h6
   obtain ⟨f1, f2⟩ := fieldsOkW_unpack _ _ h7
   refine ⟨h1, h2, h3, h4, h5, r1, f1, ?_⟩
